@@ -47,7 +47,8 @@ def body(chk):
     chk.bounds = dict(values='unbounded (all real parameter values and points satisfying the admissibility assumptions)', loops='none')
     val = flow_family(chk, w, FAMILY, viscous_of, doc_fields, asbuilt=ASBUILT)
     import c03_powerlaw
-    val += c03_powerlaw.build(chk, w)
+    # nsctpl: jets of the primitives + sources over abstract jets (IR compiled with -fno-inline so that the primitive members stay calls)
+    val += c03_powerlaw.build(chk, chk.world(extra=('-fno-inline',)))
     chk.solve_all()
     pde.validate_terms(chk, val, npoints=1 if chk.tier == 'quick' else 4)
 
